@@ -114,7 +114,8 @@ func (f *verifFile) ReadAt(p []byte, off int64) (int, error) {
 	f.s.mu.Lock()
 	defer f.s.mu.Unlock()
 	f.s.ops++
-	for f.s.gateRead {
+	// (closing the file ends a read that is parked on the gate, as closing a real file ends pending IO)
+	for f.s.gateRead && !f.closed {
 		f.s.blockedRead++
 		f.s.release.Wait()
 		f.s.blockedRead--
@@ -170,6 +171,7 @@ func (f *verifFile) Close() error {
 		f.closed = true
 		f.s.closed++
 		f.s.log = append(f.s.log, "close:"+f.name)
+		f.s.release.Broadcast()
 	}
 	return nil
 }
@@ -1289,12 +1291,16 @@ func (w *VerifWorld) Op(op string) string {
 		if !w.call(func() { _ = w.tor.Stop() }) {
 			return "hang"
 		}
-		w.autoRelease()
+		if m["hold"] != "1" { // hold=1: the storage gates stay as they are
+			w.autoRelease()
+		}
 	case "verify":
 		if !w.call(func() { _ = w.tor.Verify() }) {
 			return "hang"
 		}
-		w.autoRelease()
+		if m["hold"] != "1" {
+			w.autoRelease()
+		}
 	case "diskcheck":
 		// settle first, then compare the storage with the ground truth
 		o := w.observeAfterSettle()
